@@ -7,6 +7,21 @@ from vlib import gen
 PMODES = ["zeros", "reflect", "replicate", "circular"]
 
 
+import contextlib
+
+
+@contextlib.contextmanager
+def repeatable_kernels(uses_conv):
+    """oneDNN's bfloat16 convolution returns NaN / unrepeatable values for some finite inputs in this torch build (seen on a
+    plain float Conv2d, independent of quanto). Cases that run convolutions switch oneDNN off so that float references and
+    bitwise before/after comparisons are repeatable; everything else runs with the platform's default kernels."""
+    if uses_conv:
+        with torch.backends.mkldnn.flags(enabled=False):
+            yield
+    else:
+        yield
+
+
 class Holder(torch.nn.Module):
     """custom container with attribute children"""
 
